@@ -40,13 +40,17 @@ SCALES = {'major': [0, 2, 4, 5, 7, 9, 11], 'minor': [0, 2, 3, 5, 7, 8, 10],
           'penta': [0, 2, 4, 7, 9],
           # degrees index the steps of a tuning that is not 12-tone
           'et19': [0, 3, 6, 8, 11, 14, 17], 'et7': [0, 1, 2, 3, 4, 5, 6],
-          'bp': [0, 2, 4, 6, 8, 10, 12]}
+          'bp': [0, 2, 4, 6, 8, 10, 12],
+          # Scale.chromatic() with its default tuning: every semitone
+          'chromatic': list(range(12))}
 # name -> (number of tuning steps, octave ratio); default 12-tone, ratio 2
 TUNINGS = {'et19': (19, 2.0), 'et7': (7, 2.0), 'bp': (13, 3.0)}
 
 
 def make_scale(name):
     import sc3.seq.scale as scl
+    if name == 'chromatic':
+        return scl.Scale.chromatic()
     if name not in TUNINGS:
         return scl.Scale(SCALES[name])
     n, ratio = TUNINGS[name]
